@@ -264,11 +264,25 @@ theorem C18_mark_covers_container (c : Keep.Cell) (j : Nat) (hj : j ∈ c.refs) 
   Keep.refs_fields c j hj
 
 /-- the Mark functions in /repo are the ones `Keep.toObj` was written against: `Table_Mark` walks all `nslots` slots; the
-    texts of Array_Mark, List_Mark, Thread_Mark, Tree_Mark, Tuple_Mark are unchanged; no other type declares Mark -/
+    texts of Array_Mark, List_Mark, Thread_Mark, Tree_Mark, Tuple_Mark are unchanged; no other type declares Mark.
+    `Thread_Mark` (since fix 80c795e) presents the thread-local table only of the thread that is marking —
+    `if (self is current(Thread)) { mark(t->tls, gc, f); }` — and the thread-local phase of `GC_Mark` hands it exactly
+    `current(Thread)`: for the one Thread object of the keep model (`Keep.threadObj`, the running thread) the test holds, so
+    what the collector is shown of thread-local storage is what it was shown before the repair. -/
 theorem C18_mark_functions_as_modelled :
     tableMarkBound = "nslots" ∧
     markFunctions.map (·.1) = ["Array", "List", "Thread", "Tree", "Tuple"] ∧
-    markFunctions.map (·.2.1) = markFunctions.map (·.2.2) := by
+    markFunctions.map (·.2.1) = markFunctions.map (·.2.2) ∧
+    gcMarkThreadArg = "current(Thread)" := by
+  decide +kernel
+
+/-- the text the model was written against is the repaired one: the unguarded `Thread_Mark` of before fix 80c795e (every
+    Thread object presents its table, whichever thread marks — the former finding KF-C13-mark-foreign-tls) is no longer what
+    /repo declares, and the guard it gained names the object `GC_Mark` passes -/
+theorem C18_thread_mark_is_guarded :
+    (markFunctions.lookup "Thread").map (·.1) ≠ some threadMarkOld ∧
+    (markFunctions.lookup "Thread").map (·.1) =
+      some ("struct Thread* t = self; if (self is " ++ gcMarkThreadArg ++ ") { mark(t->tls, gc, f); }") := by
   decide +kernel
 
 /-- **The loop bound of Table_Mark matters**: after `set(t, 3, x)` on a new Table (5 slots, one item) the only entry sits in
